@@ -245,6 +245,8 @@ func runC11(c *Ctx) {
 		// subject: all program-level roles are fields of the ranged element of r.Programs
 		siteExhaustive(r, gd, "telemetrygodev.validate", val, required)
 	}
+	// the lookup tables behind the predicates are built as the documented semantics say
+	c01TablesAs(c, root, "C11")
 	r.Floor("C11.program-level", 20)
 	r.Floor("C11.exhaustive", 4*len(required))
 }
